@@ -163,6 +163,17 @@ CHECKS["C12"] = dict(
          "store model fed by the model loop's save events.",
     technique="Lean 4 proofs about the loop's save events and the store model + differential check of directory listings and per-step contents of real checkpoint directories",
     ref="§8 C12", note="Orbax CheckpointManager and the filesystem are the runtime; the model of their behaviour is validated by the listing comparison, not proved.")
+CHECKS["C09"] = dict(
+    text="Theorems (generic loop, instantiated for VI, RVI, periodic, semi-async with any iteration-indexed schedule, PI): run k1 iterations with "
+         "checkpointing without converging, take the snapshot of the last save event (the call's last iteration is always saved, label-consistent), "
+         "restore it into a fresh solver's template (which drops the stored policy for the VI family), run k2 more: state and convergence flag "
+         "equal one uninterrupted solve(k1+k2) without checkpointing, for every k1, k2, frequency; checkpoint frequency never changes a result. "
+         "Partial: bit-for-bit equality across processes is platform reproducibility plus Orbax fidelity - observed, not proved. "
+         "Tie: chains of interruptions with every leg in a fresh interpreter (restore() and construct+load_checkpoint() routes, frequency 1-3, "
+         "retention 1-2, sync/async) compared bit for bit with a process that never checkpoints and with the model; shuffled semi-async resumed "
+         "to convergence and certified against the C01 bound.",
+    technique="Lean 4 proof of resume = uninterrupted from loop composability + snapshot/restore agreement + fresh-process interrupt/resume runs compared bitwise",
+    ref="§8 C09", note="Orbax serialisation fidelity and cross-process float reproducibility are runtime behaviour, observed only.")
 PENDING = {}
 
 
